@@ -158,7 +158,7 @@ func stacksMatching(marker string) string {
 	return strings.Join(out, "\n---\n")
 }
 
-const c14Watchdog = 15 * time.Second
+const c14Watchdog = 40 * time.Second
 
 // c14RunScript executes one directed script.
 func c14RunScript(c *evid.Ctx, sc c14Script, seed int64) {
